@@ -114,6 +114,20 @@ def run_op(case, pose=None):
     pose = pose or build_pose(case)
     op = case["op"]
     extra = {}
+    if (len(case["data"]) + case["shape"][0]) % 3 == 1:
+        # caller-side variety: the pose operated on is a deep copy of a pose that was used before (a discarded flip), and the
+        # original was overwritten afterwards - the operation must act on the object it is called on
+        import copy as _copy
+        try:
+            pose.flip(0)
+        except Exception:
+            pass
+        used, pose = pose, _copy.deepcopy(pose)
+        try:
+            used.body.data[...] = 777.0
+            used.body.confidence[...] = 0.25
+        except Exception:
+            pass
     try:
         if op == "flip":
             out = pose.flip(case["axis"])
